@@ -253,6 +253,10 @@ func Tokenize(pw string, ti Indices, entropy float32) (Password, error) {
 		return p, nil
 
 	case FullIndexKind:
+		if len(ti)%2 != 1 {
+			// After the kind byte there must be a (length, type) pair per token
+			return p, fmt.Errorf("truncated token index: %d bytes", len(ti))
+		}
 		tokens := make([]Token, len(ti)/2)
 
 		prevPos := 0
